@@ -113,7 +113,7 @@ def pre_tension(C):
 def post_tension_prologue(C):
     o, n = C.old, C.new
     ct = o.f(C.this, 'cell.cell_type_')
-    cbrt = C.e.uf('cbrt', R, R)
+    cbrt = C.e.uf('libm.cbrt', R, R)
     return [('target-area-from-the-isoperimetric-ratio', n.f(C.this, 'cell.target_area_') == cbrt(o.f(ct, 'cell_type_parameters.target_isoperimetric_ratio_') * o.f(C.this, 'cell.volume_') * o.f(C.this, 'cell.volume_')))]
 
 
